@@ -56,7 +56,7 @@ def _(self: Union[PRDB(0), PRDB(1), PRDB(2), PRDB(3)]):
 
 
 @contract("spsdk.image.bee:BeeProtectRegionBlock.is_inside_region")
-def _(self: PRDB(0), start_addr: int) -> bool:
+def _(self: Obj(BeeProtectRegionBlock, _start_addr=U32, _end_addr=U32), start_addr: int) -> bool:
     returns(self._start_addr <= start_addr and start_addr < self._end_addr)
     pure()
     sample_with(lambda rnd: {"self": _mk_prdb(rnd), "start_addr": rnd.randrange(0, 1 << 31)})
@@ -161,3 +161,52 @@ def _(self: Obj(IeeKeyBlob, attributes=IEE_ATTR13, page_offset=U32, key1=Union[B
     ensures(result[92:96] == CRC(0x104C11DB7, 0xFFFFFFFF, False, 0, result[0:92]).to_bytes(4, "little"), label="crc32-mpeg2-over-the-first-92-bytes")
     pure()
     sample_with(lambda rnd: {"self": _mk_iee(rnd)})
+
+
+# ----------------------------------------------------------------------------------------------------------------------
+# BEE AES-CTR: a block inside a FAC region is encrypted with the counter of its own absolute address (address >> 4 added to the PRDB counter
+# word, 32-bit wrap); a block outside every FAC region is left alone
+# ----------------------------------------------------------------------------------------------------------------------
+from spsdk.image.bee import BeeProtectRegionBlockAesMode  # noqa: E402
+
+
+@assumed("spsdk.utils.misc:align_block_fill_random", reason="padding bytes are random (rng); only the kept prefix and the aligned length are used")
+def _(data: bytes, alignment: Range(1, 4096)) -> bytes:
+    ensures(len(result) == (len(data) + alignment - 1) // alignment * alignment and result[: len(data)] == data)
+    ensures(implies(len(data) % alignment == 0, result == data))
+    pure()
+
+
+def PRDBE(k):
+    return Obj(BeeProtectRegionBlock, fac_regions=ListOf(FAC, k), _start_addr=U32, _end_addr=U32, mode=Const(BeeProtectRegionBlockAesMode.CTR), counter=Bytes(16))
+
+
+def _mk_prdbe(rnd):
+    p = BeeProtectRegionBlock(counter=bytes(rnd.getrandbits(8) for _ in range(12)) + rnd.choice([bytes(4), b"\xff\xff\xff\xf0"]))
+    base = rnd.randrange(0x60000, 0x60010) * 1024
+    for j in range(rnd.randrange(1, 3)):
+        p.add_fac(BeeFacRegion(base + j * 0x4000, rnd.choice([0x400, 0x800, 0x2000]), rnd.randrange(4)))
+    return p
+
+
+def bee_hit(self, j, a):
+    return j < len(self.fac_regions) and self.fac_regions[j].start_addr <= a and a < self.fac_regions[j].start_addr + self.fac_regions[j].length
+
+
+def bee_end(self, j):
+    return self.fac_regions[j].start_addr + self.fac_regions[j].length if j < len(self.fac_regions) else 0
+
+
+@contract("spsdk.image.bee:BeeProtectRegionBlock.encrypt_block")
+def _(self: Union[PRDBE(1), PRDBE(2)], key: Bytes(16), start_addr: U32, data: Union[Bytes(16), Bytes(512), Bytes(1024)]) -> bytes:
+    let(inside=self._start_addr <= start_addr and start_addr < self._end_addr)
+    let(hit0=bee_hit(self, 0, start_addr), hit1=bee_hit(self, 1, start_addr))
+    let(enc=inside and (hit0 or hit1), end=bee_end(self, 0) if hit0 else bee_end(self, 1))      # the first region that holds the address decides
+    raises(SPSDKError, enc and start_addr + len(data) > end, label="block-must-not-leave-its-region")
+    let(ctr=(int.from_bytes(self.counter[12:16], "big") + start_addr // 16) % 2 ** 32)
+    returns(AES_CTR(key, self.counter[0:12] + ctr.to_bytes(4, "big"), data) if enc else data,
+            label="counter-is-the-absolute-address-of-the-block-over-16-outside-the-regions-untouched")
+    pure()
+    sample_with(lambda rnd: (lambda p: {"self": p, "key": bytes(rnd.getrandbits(8) for _ in range(16)),
+                                        "start_addr": rnd.choice([p.fac_regions[0].start_addr + rnd.choice([0, 0x10, 0x200, 0x3F0, 0x400]), 0x1000, p.fac_regions[-1].start_addr + 0x10]),
+                                        "data": bytes(rnd.getrandbits(8) for _ in range(rnd.choice([16, 512, 1024])))})(_mk_prdbe(rnd)))
